@@ -113,3 +113,67 @@ lookup_contract = Contract(
 )
 
 CONTRACTS += [lookup_contract, lookup_rec]
+
+
+# =================================================================================================
+# SemanticAnalyzer._infer_bundle_literal_type: a bundle literal whose flattened members (signals and the members of
+# nested bundles, in any order) contain one signal type twice is reported as an error; without duplicates nothing is
+# reported and the result is the union.  Element types range over signals / nested bundles on a 3-name alphabet
+# (names matter only up to equality): literals of 3 elements, all 5^3 type assignments — bounded.
+# =================================================================================================
+import itertools as _it  # noqa: E402
+
+from pyvc.values import SObj as _SObj, fresh_name as _fresh  # noqa: E402
+
+AN = "dsl_compiler/src/semantic/analyzer.py::SemanticAnalyzer."
+ERRS = []
+_ELEM_TYPES = [("sig", "a"), ("sig", "b"), ("bun", ("a",)), ("bun", ("a", "b")), ("bun", ("c",))]
+
+
+def _mk_type(ex, kind, val):
+    if kind == "sig":
+        t = _SObj(["SignalValue"], _fresh("sigtype"), lazy=False)
+        info = _SObj(["SignalTypeInfo"], _fresh("info"), lazy=False)
+        info._fields["name"] = val
+        t._fields["signal_type"] = info
+        return t
+    t = _SObj(["BundleValue"], _fresh("buntype"), lazy=False)
+    t._fields["signal_types"] = set(val)
+    return t
+
+
+def _bundle_contract(assign):
+    table = {}
+
+    def get_type(ex, a):
+        idx = [i for i, e in enumerate(ex.args_ns.expr.elements) if e is a.expr][0]
+        return _mk_type(ex, *assign[idx])
+
+    def err(ex, a):
+        ERRS.append(a.message)
+        return None
+
+    flat = []
+    for kind, val in assign:
+        flat += [val] if kind == "sig" else list(val)
+    dup = len(flat) != len(set(flat))
+
+    def post(a, res):
+        reported = len(ERRS) > 0
+        return reported == dup and (dup or set(res.signal_types) == set(flat))
+
+    return Contract(
+        qualname=AN + "_infer_bundle_literal_type",
+        params={"self": ty.TObj("SemanticAnalyzer", only=("SemanticAnalyzer",)),
+                "expr": ty.TObj("BundleLiteral", only=("BundleLiteral",), ftypes=(("elements", ty.TTuple(tuple(ty.TObj("Expr", only=("IdentifierExpr",)) for _ in assign))),))},
+        requires=[("(reset)", lambda a: ERRS.clear() or True)],
+        ensures=[("an error is reported iff a signal type occurs twice among the flattened members; otherwise the union is returned", post)],
+        uses={"SemanticAnalyzer.get_expr_type": Contract(qualname=AN + "get_expr_type", params={"self": ty.TOpaque("s"), "expr": ty.TOpaque("e")}, effect=get_type, verify=False, note="element types as enumerated"),
+              "ProgramDiagnostics.error": Contract(qualname=DIAG + "error", params={"self": ty.TOpaque("d"), "message": ty.TOpaque("m"), "stage": ty.TOpaque("s"), "node": ty.TOpaque("n")},
+                                                   defaults={"stage": None, "node": None}, effect=err, verify=False, note="records the report (its own contract is proved above)")},
+        dynamic_types={"self": {"diagnostics": ty.TObj("ProgramDiagnostics", only=("ProgramDiagnostics",))}},
+        properties=("C14",), min_obligations=1, no_replay=True, note="elements: " + "; ".join(f"{k}{v}" for k, v in assign))
+
+
+for _assign in _it.product(_ELEM_TYPES, repeat=3):
+    CONTRACTS.append(_bundle_contract(_assign))
